@@ -256,6 +256,24 @@ class _DropAnn(ast.NodeTransformer):
     def visit_For(self, n):
         # for i, data in G.nodes(data=True) / G.nodes.items() / G.nodes.data():   ->   for i in G.nodes: data = G.nodes[i]
         self.generic_visit(n)
+        # for p in range(a, b): x = L[p]; BODY   ->   for x in L[a:b]: BODY        (p used for nothing else)
+        if self.depth > 0 and isinstance(n.target, ast.Name) and isinstance(n.iter, ast.Call) and isinstance(n.iter.func, ast.Name) \
+                and n.iter.func.id == "range" and 1 <= len(n.iter.args) <= 2 and not n.iter.keywords and n.body \
+                and isinstance(n.body[0], ast.Assign) and len(n.body[0].targets) == 1 and isinstance(n.body[0].targets[0], ast.Name) \
+                and isinstance(n.body[0].value, ast.Subscript) and isinstance(n.body[0].value.value, ast.Name) \
+                and isinstance(n.body[0].value.slice, ast.Name) and n.body[0].value.slice.id == n.target.id:
+            p_ = n.target.id
+            uses = sum(1 for st in n.body + n.orelse for y in ast.walk(st) if isinstance(y, ast.Name) and y.id == p_)
+            if uses == 1 and len(n.body) > 1:
+                lo = n.iter.args[0] if len(n.iter.args) == 2 else None
+                hi = n.iter.args[-1]
+                sl = ast.Subscript(n.body[0].value.value, ast.Slice(lo, hi, None), ast.Load())
+                new = ast.For(ast.Name(n.body[0].targets[0].id, ast.Store()), sl, n.body[1:], n.orelse)
+                ast.copy_location(new, n)
+                for y in (new.target, sl, sl.slice):
+                    ast.copy_location(y, n.target)
+                ast.fix_missing_locations(new)
+                n = new
         it = n.iter
         G = None
         if isinstance(it, ast.Call) and isinstance(it.func, ast.Attribute):
@@ -507,11 +525,13 @@ def _drop_local_annotations(tree: ast.Module) -> None:
     for y in tree.body:
         if isinstance(y, ast.FunctionDef):
             _worklist_to_recursion(y, False)
+            _propagate_local_copies(y)
             _cursor_frames_to_lists(y)
     from . import memo
     for x in ast.walk(tree):
         if isinstance(x, ast.FunctionDef):
             _flatten_chains(x)
+            _dsu_to_sorted(x)
             _size_snapshot_loops(x)
             _drop_length_shadows(x)
             _inline_flag_locals(x)
@@ -1096,6 +1116,29 @@ def _cursor_frames_to_lists(fn: ast.FunctionDef) -> bool:
         if len(t.elts) == 3:
             t.elts = t.elts[:2]
     fp.targets[0].elts = fp.targets[0].elts[:2]
+
+    # `x = items[-1]` directly followed by `items.pop()` is `x = items.pop()`
+    def merge(body: list) -> None:
+        k = 0
+        while k + 1 < len(body):
+            a_, b_ = body[k], body[k + 1]
+            if isinstance(a_, ast.Assign) and len(a_.targets) == 1 and isinstance(a_.targets[0], ast.Name) \
+                    and isinstance(a_.value, ast.Subscript) and isinstance(a_.value.value, ast.Name) and a_.value.value.id == L \
+                    and isinstance(a_.value.slice, ast.UnaryOp) and isinstance(a_.value.slice.op, ast.USub) \
+                    and isinstance(b_, ast.Expr) and isinstance(b_.value, ast.Call) and isinstance(b_.value.func, ast.Attribute) \
+                    and b_.value.func.attr == "pop" and isinstance(b_.value.func.value, ast.Name) and b_.value.func.value.id == L \
+                    and not b_.value.args:
+                a_.value = b_.value
+                del body[k + 1]
+                continue
+            k += 1
+        for st in body:
+            if not isinstance(st, (ast.FunctionDef, ast.ClassDef)):
+                for fld in ("body", "orelse", "finalbody"):
+                    sub = getattr(st, fld, None)
+                    if isinstance(sub, list) and sub and isinstance(sub[0], ast.stmt):
+                        merge(sub)
+    merge(fn.body)
     for call, rv in sorts:
         if rv is None:
             call.keywords.append(ast.keyword("reverse", ast.Constant(True)))
@@ -1189,6 +1232,273 @@ def _size_snapshot_loops(fn: ast.FunctionDef) -> int:
                         block(sub)
                 for h in getattr(st, "handlers", []) or []:
                     block(h.body)
+    block(fn.body)
+    return count
+
+
+def _dsu_to_sorted(fn: ast.FunctionDef) -> int:
+    """decorate / sort by the decoration / undecorate  ->  sorted(.., key=..):
+        D = [(K(x), x) for x in L];  D.sort(key=lambda t: t[0])  [or D = sorted(D, key=lambda t: t[0])];  R = [x for _, x in D]
+    ->  R = sorted(L, key=lambda x: K(x))          (Python's sort is stable in both spellings)"""
+    import copy as _copy
+    count = 0
+    uses: dict[str, int] = {}
+    for n in ast.walk(fn):
+        if isinstance(n, ast.Name):
+            uses[n.id] = uses.get(n.id, 0) + 1
+
+    def first_component_key(k: ast.expr) -> bool:
+        return isinstance(k, ast.Lambda) and len(k.args.args) == 1 and isinstance(k.body, ast.Subscript) \
+            and isinstance(k.body.value, ast.Name) and k.body.value.id == k.args.args[0].arg \
+            and isinstance(k.body.slice, ast.Constant) and k.body.slice.value == 0
+
+    def block(body: list) -> None:
+        nonlocal count
+        i = 0
+        while i + 2 < len(body):
+            a, b, c = body[i], body[i + 1], body[i + 2]
+            ok = isinstance(a, ast.Assign) and len(a.targets) == 1 and isinstance(a.targets[0], ast.Name) \
+                and isinstance(a.value, ast.ListComp) and len(a.value.generators) == 1 and not a.value.generators[0].ifs \
+                and isinstance(a.value.generators[0].target, ast.Name) and isinstance(a.value.elt, ast.Tuple) and len(a.value.elt.elts) == 2 \
+                and isinstance(a.value.elt.elts[1], ast.Name) and a.value.elt.elts[1].id == a.value.generators[0].target.id
+            if ok:
+                D = a.targets[0].id
+                key = None
+                if isinstance(b, ast.Expr) and isinstance(b.value, ast.Call) and isinstance(b.value.func, ast.Attribute) \
+                        and b.value.func.attr == "sort" and isinstance(b.value.func.value, ast.Name) and b.value.func.value.id == D \
+                        and not b.value.args and len(b.value.keywords) == 1 and b.value.keywords[0].arg == "key":
+                    key = b.value.keywords[0].value
+                elif isinstance(b, ast.Assign) and len(b.targets) == 1 and isinstance(b.targets[0], ast.Name) and b.targets[0].id == D \
+                        and isinstance(b.value, ast.Call) and isinstance(b.value.func, ast.Name) and b.value.func.id == "sorted" \
+                        and len(b.value.args) == 1 and isinstance(b.value.args[0], ast.Name) and b.value.args[0].id == D \
+                        and len(b.value.keywords) == 1 and b.value.keywords[0].arg == "key":
+                    key = b.value.keywords[0].value
+                und = isinstance(c, ast.Assign) and len(c.targets) == 1 and isinstance(c.targets[0], ast.Name) \
+                    and isinstance(c.value, ast.ListComp) and len(c.value.generators) == 1 and not c.value.generators[0].ifs \
+                    and isinstance(c.value.generators[0].iter, ast.Name) and c.value.generators[0].iter.id == D \
+                    and isinstance(c.value.generators[0].target, ast.Tuple) and len(c.value.generators[0].target.elts) == 2 \
+                    and isinstance(c.value.generators[0].target.elts[1], ast.Name) and isinstance(c.value.elt, ast.Name) \
+                    and c.value.elt.id == c.value.generators[0].target.elts[1].id
+                n_uses = 3 if isinstance(b, ast.Expr) else 4
+                if key is not None and first_component_key(key) and und and uses.get(D) == n_uses:
+                    g = a.value.generators[0]
+                    lam = ast.Lambda(ast.arguments([], [ast.arg(g.target.id)], None, [], [], None, []), _copy.deepcopy(a.value.elt.elts[0]))
+                    call = ast.Call(ast.Name("sorted", ast.Load()), [g.iter], [ast.keyword("key", lam)])
+                    new = ast.Assign([c.targets[0]], call)
+                    ast.copy_location(new, a)
+                    ast.fix_missing_locations(new)
+                    for y in ast.walk(new):
+                        if hasattr(y, "lineno"):
+                            y.lineno = y.end_lineno = a.lineno
+                    body[i:i + 3] = [new]
+                    count += 1
+                    continue
+            i += 1
+        for st in body:
+            if not isinstance(st, (ast.FunctionDef, ast.ClassDef)):
+                for fld in ("body", "orelse", "finalbody"):
+                    sub = getattr(st, fld, None)
+                    if isinstance(sub, list) and sub and isinstance(sub[0], ast.stmt):
+                        block(sub)
+                for h in getattr(st, "handlers", []) or []:
+                    block(h.body)
+    block(fn.body)
+    return count
+
+
+def _dataclass_frames(trees: list[ast.Module]) -> int:
+    """Small mutable records that only travel through a stack or queue of one function
+
+        @dataclass
+        class Frame: node: int; items: list | None = None; position: int = 0
+        ...
+        frame = stack.pop(); frame.position += 1; stack.append(frame); stack.append(Frame(s))
+
+    are read as tuples unpacked into locals: `(frame__node, frame__items, frame__position) = stack.pop()`, fields are the
+    locals, `stack.append(frame)` pushes the tuple of the locals, `Frame(s)` is `(s, None, 0)`. A record that is popped,
+    changed and pushed back is not shared with anybody, so the copy made by the tuple is not observable."""
+    import copy as _copy
+    count = 0
+    for t in trees:
+        classes: dict[str, list[tuple[str, ast.expr | None]]] = {}
+        for c in t.body:
+            if not isinstance(c, ast.ClassDef) or c.bases or c.keywords:
+                continue
+            if not any((isinstance(d, ast.Name) and d.id == "dataclass") or (isinstance(d, ast.Attribute) and d.attr == "dataclass")
+                       or (isinstance(d, ast.Call) and ((isinstance(d.func, ast.Name) and d.func.id == "dataclass")
+                                                        or (isinstance(d.func, ast.Attribute) and d.func.attr == "dataclass"))
+                           and not d.args and not d.keywords) for d in c.decorator_list):
+                continue
+            fields = []
+            ok = True
+            for st in c.body:
+                if isinstance(st, ast.Expr) and isinstance(st.value, ast.Constant):
+                    continue
+                if isinstance(st, ast.AnnAssign) and isinstance(st.target, ast.Name) and (
+                        st.value is None or isinstance(st.value, ast.Constant)):
+                    fields.append((st.target.id, st.value))
+                else:
+                    ok = False
+            if ok and fields:
+                classes[c.name] = fields
+        if not classes:
+            continue
+        for fn in [n for n in ast.walk(t) if isinstance(n, ast.FunctionDef)]:
+            for K, fields in classes.items():
+                if not any(isinstance(n, ast.Name) and n.id == K for st in fn.body for n in ast.walk(st)):
+                    continue
+                parents: dict[int, ast.AST] = {}
+                for p_ in ast.walk(fn):
+                    for c_ in ast.iter_child_nodes(p_):
+                        parents[id(c_)] = p_
+                names = [f_ for f_, _ in fields]
+
+                def build(call: ast.Call) -> ast.Tuple | None:
+                    vals: dict[str, ast.expr] = {}
+                    if len(call.args) > len(names) or any(isinstance(a, ast.Starred) for a in call.args):
+                        return None
+                    for nm, a in zip(names, call.args):
+                        vals[nm] = a
+                    for kw in call.keywords:
+                        if kw.arg is None or kw.arg not in names or kw.arg in vals:
+                            return None
+                        vals[kw.arg] = kw.value
+                    elts = []
+                    for nm, dflt in fields:
+                        if nm in vals:
+                            elts.append(vals[nm])
+                        elif dflt is not None:
+                            elts.append(_copy.deepcopy(dflt))
+                        else:
+                            return None
+                    return ast.copy_location(ast.Tuple(elts, ast.Load()), call)
+                # constructor calls: only as the element pushed on / listed in a container
+                ctor = [n for st in fn.body for n in ast.walk(st) if isinstance(n, ast.Call) and isinstance(n.func, ast.Name) and n.func.id == K]
+                other_K = [n for st in fn.body for n in ast.walk(st) if isinstance(n, ast.Name) and n.id == K
+                           and not (isinstance(parents.get(id(n)), ast.Call) and parents[id(n)].func is n)
+                           and not _in_annotation(n, parents)]
+                if other_K:
+                    continue
+                good = True
+                for c_ in ctor:
+                    p_ = parents.get(id(c_))
+                    if isinstance(p_, ast.Call) and isinstance(p_.func, ast.Attribute) and p_.func.attr in ("append", "appendleft") \
+                            and c_ in p_.args and build(c_) is not None:
+                        continue
+                    if isinstance(p_, ast.List) and build(c_) is not None:
+                        continue
+                    good = False
+                # record variables: locals drawn from a container, used as v.field or pushed back
+                drawn = {}
+                for n in [x for st in fn.body for x in ast.walk(st)]:
+                    if isinstance(n, ast.Assign) and len(n.targets) == 1 and isinstance(n.targets[0], ast.Name) \
+                            and isinstance(n.value, ast.Call) and isinstance(n.value.func, ast.Attribute) \
+                            and n.value.func.attr in ("pop", "popleft") and isinstance(n.value.func.value, ast.Name):
+                        drawn.setdefault(n.targets[0].id, []).append(n)
+                recs = {}
+                for v, defs in drawn.items():
+                    okv = True
+                    fld_seen = False
+                    for n in [x for st in fn.body for x in ast.walk(st)]:
+                        if isinstance(n, ast.Name) and n.id == v:
+                            p_ = parents.get(id(n))
+                            if any(n is d.targets[0] for d in defs):
+                                continue
+                            if isinstance(p_, ast.Attribute) and p_.value is n and p_.attr in names:
+                                fld_seen = True
+                                continue
+                            if isinstance(p_, ast.Call) and isinstance(p_.func, ast.Attribute) and p_.func.attr in ("append", "appendleft") \
+                                    and n in p_.args and len(p_.args) == 1:
+                                continue
+                            okv = False
+                    if okv and fld_seen:
+                        recs[v] = defs
+                if not good or not recs or not ctor:
+                    continue
+                # rewrite
+                class R(ast.NodeTransformer):
+                    def visit_FunctionDef(self, n):
+                        return self.generic_visit(n) if n is fn else n
+
+                    def visit_Attribute(self, n):
+                        if isinstance(n.value, ast.Name) and n.value.id in recs and n.attr in names:
+                            return ast.copy_location(ast.Name(f"{n.value.id}__{n.attr}", n.ctx), n)
+                        return self.generic_visit(n)
+
+                    def visit_Call(self, n):
+                        self.generic_visit(n)
+                        if isinstance(n.func, ast.Name) and n.func.id == K:
+                            b_ = build(n)
+                            return b_ if b_ is not None else n
+                        if isinstance(n.func, ast.Attribute) and n.func.attr in ("append", "appendleft") and len(n.args) == 1 \
+                                and isinstance(n.args[0], ast.Name) and n.args[0].id in recs:
+                            v = n.args[0].id
+                            n.args[0] = ast.copy_location(ast.Tuple([ast.Name(f"{v}__{f_}", ast.Load()) for f_ in names], ast.Load()), n.args[0])
+                        return n
+
+                    def visit_Assign(self, n):
+                        for v, defs in recs.items():
+                            if n in defs:
+                                n.targets[0] = ast.copy_location(ast.Tuple([ast.Name(f"{v}__{f_}", ast.Store()) for f_ in names], ast.Store()),
+                                                                 n.targets[0])
+                                return n
+                        return self.generic_visit(n)
+                R().visit(fn)
+                ast.fix_missing_locations(fn)
+                count += 1
+    return count
+
+
+def _in_annotation(n: ast.AST, parents: dict) -> bool:
+    x = n
+    while id(x) in parents:
+        p_ = parents[id(x)]
+        if isinstance(p_, ast.AnnAssign) and p_.annotation is x:
+            return True
+        if isinstance(p_, ast.arg) or (isinstance(p_, ast.FunctionDef) and p_.returns is x):
+            return True
+        x = p_
+    return False
+
+
+def _propagate_local_copies(fn: ast.FunctionDef) -> int:
+    """`a = b` (both locals, `a` bound only here) followed by statements that do not re-bind `b`: `a` is `b`."""
+    stores: dict[str, int] = {}
+    for n in ast.walk(fn):
+        if isinstance(n, ast.Name) and isinstance(n.ctx, (ast.Store, ast.Del)):
+            stores[n.id] = stores.get(n.id, 0) + 1
+        if isinstance(n, (ast.Global, ast.Nonlocal)):
+            return 0
+    params = {a.arg for a in fn.args.posonlyargs + fn.args.args + fn.args.kwonlyargs}
+    count = 0
+
+    def block(body: list) -> None:
+        nonlocal count
+        i = 0
+        while i < len(body):
+            st = body[i]
+            if isinstance(st, ast.Assign) and len(st.targets) == 1 and isinstance(st.targets[0], ast.Name) and isinstance(st.value, ast.Name) \
+                    and st.targets[0].id != st.value.id and stores.get(st.targets[0].id) == 1 and st.targets[0].id not in params \
+                    and "__" in st.value.id:
+                a, b = st.targets[0].id, st.value.id
+                rest = body[i + 1:]
+                if not any(isinstance(y, ast.Name) and y.id == b and isinstance(y.ctx, (ast.Store, ast.Del)) for r in rest for y in ast.walk(r)) \
+                        and not any(isinstance(y, (ast.FunctionDef, ast.Lambda)) for r in rest for y in ast.walk(r)):
+                    class RN(ast.NodeTransformer):
+                        def visit_Name(self, n_):
+                            return ast.copy_location(ast.Name(b, n_.ctx), n_) if n_.id == a else n_
+                    for k in range(i + 1, len(body)):
+                        body[k] = RN().visit(body[k])
+                    body[i] = ast.copy_location(ast.Pass(), st)
+                    count += 1
+            if not isinstance(st, (ast.FunctionDef, ast.ClassDef)):
+                for fld in ("body", "orelse", "finalbody"):
+                    sub = getattr(st, fld, None)
+                    if isinstance(sub, list) and sub and isinstance(sub[0], ast.stmt):
+                        block(sub)
+                for h in getattr(st, "handlers", []) or []:
+                    block(h.body)
+            i += 1
     block(fn.body)
     return count
 
@@ -1456,6 +1766,8 @@ class Repo:
         if self.normalise:
             from . import typefacts
             self.type_normalisation = typefacts.normalise({k: m.tree for k, m in self.modules.items()})
+        if self.normalise:
+            _dataclass_frames([m.tree for m in self.modules.values()])
         for m in self.modules.values():
             _drop_local_annotations(m.tree)
         if self.normalise:
